@@ -320,6 +320,7 @@ class UnrollMixin:
 
     fork_undecided = False   # explore both outcomes of an undecided loop test (bounded depth)
     fork_depth = 40
+    fork_work_cap = 6000     # iterations explored per loop statement before falling back
 
     def unroll_loop(self, interp, node, st):
         if not (self.unroll and isinstance(node, ast.While)):
@@ -329,6 +330,7 @@ class UnrollMixin:
         # exact path enumeration with forking on undecided tests; if the loop does not end within
         # `fork_depth` iterations along some path, fall back to the havoc summary of the loop
         saved_paths = interp.paths
+        self._fork_work = 0
         try:
             return list(self._unroll_fork(interp, node, st, 0))
         except _TooDeep:
@@ -340,6 +342,10 @@ class UnrollMixin:
         from .interp import Outcome
         if depth > (self.fork_depth if self._forked else 3000):
             raise _TooDeep()
+        # forks inside the loop *body* multiply the iterations to explore: bound the total work
+        self._fork_work = getattr(self, '_fork_work', 0) + 1
+        if self._fork_work > self.fork_work_cap:
+            raise _TooDeep()
         for c, s in interp.ev_cond(node.test, st):
             if s.raised:
                 yield Outcome('raise', s.raised, s)
@@ -349,6 +355,10 @@ class UnrollMixin:
             t = interp.decide(c, s)
             if t is None:
                 self._forked = True
+                if depth > 6 and len(repr(c)) > 3000:
+                    # the loop-carried term grows with every iteration (n - min(n, k) - ...):
+                    # unrolling further only doubles it
+                    raise _TooDeep()
                 branches = list(interp.branch(c, s))
             else:
                 branches = [(t, s)]
